@@ -61,9 +61,21 @@ def exec_read(job):
     d = tempfile.mkdtemp(prefix="rd_", dir=core.workdir())
     path = os.path.join(d, "in.txt")
     try:
+        reader = {"tum": fi.read_tum_trajectory_file, "kitti": fi.read_kitti_poses_file, "euroc": fi.read_euroc_csv_trajectory}[fmt]
+        if f["src"] != "handle" and n % 3 == 0:
+            # history: the same path held another (valid, two-row) file that this process has read already
+            w = {"tum": 8, "kitti": 12, "euroc": 8}[fmt]
+            sep = "," if fmt == "euroc" else " "
+            with open(path, "w") as fh:
+                for r_ in range(2):
+                    fh.write(sep.join(repr(1.0 if (fmt != "kitti" and j == 7) or (fmt == "kitti" and j in (0, 5, 10)) else 0.0) if j else
+                                      (str(10 ** 9 * (r_ + 1)) if fmt == "euroc" else repr(float(r_ + 1))) for j in range(w)) + "\n")
+            try:
+                reader(path)
+            except Exception:  # noqa: BLE001
+                pass
         with open(path, "wb") as fh:
             fh.write(render(fmt, f, style))
-        reader = {"tum": fi.read_tum_trajectory_file, "kitti": fi.read_kitti_poses_file, "euroc": fi.read_euroc_csv_trajectory}[fmt]
         try:
             if f["src"] == "handle":
                 with open(path, encoding="utf-8", newline=None) as fh:
